@@ -86,24 +86,29 @@ func C07adder(p *load.Program, run *report.Run) {
 		maxW   int  // largest operand width (0: 3)
 		wide   bool // result widths up to nx+ny+1 instead of max+2
 		gmwToo bool
+		capped bool // result widths up to the wider operand only (the builder leaves higher result bits alone)
 	}
 	specs := []spec{
-		{"NewAdder", false, false, func(x, y, nx, ny, nz int) int { return x + y }, 0, false, true},
-		{"NewSubtractor", false, false, func(x, y, nx, ny, nz int) int { return (x - y) & (1<<uint(nz) - 1) }, 0, false, true},
-		{"NewUintGtComparator", true, false, func(x, y, nx, ny, nz int) int { return b2i(x > y) }, 0, false, true},
-		{"NewUintGeComparator", true, false, func(x, y, nx, ny, nz int) int { return b2i(x >= y) }, 0, false, true},
-		{"NewUintLtComparator", true, false, func(x, y, nx, ny, nz int) int { return b2i(x < y) }, 0, false, true},
-		{"NewUintLeComparator", true, false, func(x, y, nx, ny, nz int) int { return b2i(x <= y) }, 0, false, true},
-		{"NewIntGtComparator", true, true, func(x, y, nx, ny, nz int) int { return b2i(signed(x, nx) > signed(y, ny)) }, 0, false, true},
-		{"NewIntGeComparator", true, true, func(x, y, nx, ny, nz int) int { return b2i(signed(x, nx) >= signed(y, ny)) }, 0, false, true},
-		{"NewIntLtComparator", true, true, func(x, y, nx, ny, nz int) int { return b2i(signed(x, nx) < signed(y, ny)) }, 0, false, true},
-		{"NewIntLeComparator", true, true, func(x, y, nx, ny, nz int) int { return b2i(signed(x, nx) <= signed(y, ny)) }, 0, false, true},
-		{"NewEqComparator", true, false, func(x, y, nx, ny, nz int) int { return b2i(x == y) }, 0, false, true},
-		{"NewNeqComparator", true, false, func(x, y, nx, ny, nz int) int { return b2i(x != y) }, 0, false, true},
-		{"NewArrayMultiplier", false, false, func(x, y, nx, ny, nz int) int { return x * y }, 4, true, false},
-		{"NewWallaceMultiplier", false, false, func(x, y, nx, ny, nz int) int { return x * y }, 4, true, false},
-		{"NewKaratsubaMultiplier", false, false, func(x, y, nx, ny, nz int) int { return x * y }, 5, true, false},
-		{"NewMultiplier", false, false, func(x, y, nx, ny, nz int) int { return x * y }, 4, true, true},
+		{name: "NewBinaryAND", want: func(x, y, nx, ny, nz int) int { return x & y }, gmwToo: true, capped: true},
+		{name: "NewBinaryClear", want: func(x, y, nx, ny, nz int) int { return x &^ y }, gmwToo: true, capped: true},
+		{name: "NewBinaryOR", want: func(x, y, nx, ny, nz int) int { return x | y }, gmwToo: true, capped: true},
+		{name: "NewBinaryXOR", want: func(x, y, nx, ny, nz int) int { return x ^ y }, gmwToo: true, capped: true},
+		{"NewAdder", false, false, func(x, y, nx, ny, nz int) int { return x + y }, 0, false, true, false},
+		{"NewSubtractor", false, false, func(x, y, nx, ny, nz int) int { return (x - y) & (1<<uint(nz) - 1) }, 0, false, true, false},
+		{"NewUintGtComparator", true, false, func(x, y, nx, ny, nz int) int { return b2i(x > y) }, 0, false, true, false},
+		{"NewUintGeComparator", true, false, func(x, y, nx, ny, nz int) int { return b2i(x >= y) }, 0, false, true, false},
+		{"NewUintLtComparator", true, false, func(x, y, nx, ny, nz int) int { return b2i(x < y) }, 0, false, true, false},
+		{"NewUintLeComparator", true, false, func(x, y, nx, ny, nz int) int { return b2i(x <= y) }, 0, false, true, false},
+		{"NewIntGtComparator", true, true, func(x, y, nx, ny, nz int) int { return b2i(signed(x, nx) > signed(y, ny)) }, 0, false, true, false},
+		{"NewIntGeComparator", true, true, func(x, y, nx, ny, nz int) int { return b2i(signed(x, nx) >= signed(y, ny)) }, 0, false, true, false},
+		{"NewIntLtComparator", true, true, func(x, y, nx, ny, nz int) int { return b2i(signed(x, nx) < signed(y, ny)) }, 0, false, true, false},
+		{"NewIntLeComparator", true, true, func(x, y, nx, ny, nz int) int { return b2i(signed(x, nx) <= signed(y, ny)) }, 0, false, true, false},
+		{"NewEqComparator", true, false, func(x, y, nx, ny, nz int) int { return b2i(x == y) }, 0, false, true, false},
+		{"NewNeqComparator", true, false, func(x, y, nx, ny, nz int) int { return b2i(x != y) }, 0, false, true, false},
+		{"NewArrayMultiplier", false, false, func(x, y, nx, ny, nz int) int { return x * y }, 4, true, false, false},
+		{"NewWallaceMultiplier", false, false, func(x, y, nx, ny, nz int) int { return x * y }, 4, true, false, false},
+		{"NewKaratsubaMultiplier", false, false, func(x, y, nx, ny, nz int) int { return x * y }, 5, true, false, false},
+		{"NewMultiplier", false, false, func(x, y, nx, ny, nz int) int { return x * y }, 4, true, true, false},
 	}
 	// result wires are sinks when Wire.Assign stops at wires flagged as outputs
 	resultWiresAreSinks = false
@@ -167,6 +172,9 @@ func C07adder(p *load.Program, run *report.Run) {
 					}
 					if sp.cmp {
 						lo, hi = 1, 1
+					}
+					if sp.capped {
+						hi = mx
 					}
 					for nz := lo; nz <= hi && bad == ""; nz++ {
 						shapes++
@@ -567,6 +575,14 @@ func (g *gateWorld) hook(w *wInterp) func(name string, c *ast.CallExpr) (wv, boo
 		fd := g.decls[name]
 		if isMethod {
 			fd = g.compilerMethod(c)
+		}
+		if id, isID := c.Fun.(*ast.Ident); isID && fd == nil {
+			// a call through a parameter that holds a function literal (a per-bit operation handed to a shared loop)
+			if v, ok := w.lookup(id.Name); ok {
+				if fl, ok := v.(wfunc); ok {
+					fd = &ast.FuncDecl{Name: ast.NewIdent(id.Name), Type: fl.lit.Type, Body: fl.lit.Body}
+				}
+			}
 		}
 		if fd == nil {
 			return nil, false
